@@ -247,12 +247,12 @@ def gen_readonly_programs(tier: str, rnd: random.Random) -> list[dict]:
     progs = []
     ints = sorted(set(list(range(-300, 301, 3 if quick else 1)) + [-32769, -32768, -65536, -2 ** 31, 32768, 65535, 65536, 2 ** 31,
                                                                     -1, 0, 1, 99, 100, 101, 89, 90]))
-    fams = [("ET", "ETU", 10000, 8899), ("ET", "ETT", 10000, 502), ("DT", "DTU", 0, 8899), ("ES", "ESU", 0, 8899)]
-    for fam, tag, rated, port in fams:
-        serial = serial_for(tag)
-        sim = {"regs": device_regs(fam, serial, rated)}
-        if fam == "ES":
-            sim["aa55"] = {"info": list(es_info("95048ESU000W0000"))}
+    # every capability variant of the three families (platform, eco-mode generation, peak shaving, ES firmware, DT phases,
+    # transport): which branch a setter takes depends on them
+    from .checks_modes import VARIANTS, DT_VARIANTS, inv_spec
+    for variant in VARIANTS + DT_VARIANTS:
+        fam, port = variant[1], variant[3]
+        sim = inv_spec(variant, "00" * 12)["sim"]
         sim["regs"].update({47000: 1, 45356: 20, 47510: 3000, 40328: 50, 40336: 50})
         ro_calls = [{"api": "read_device_info"}, {"api": "read_runtime_data", "span": {"decode": False}},
                     {"api": "read_runtime_data", "span": {"decode": False}}, {"api": "read_settings_data", "span": {"decode": False}},
@@ -272,7 +272,7 @@ def gen_readonly_programs(tier: str, rnd: random.Random) -> list[dict]:
         # setters
         calls = [{"api": "read_device_info"}]
         for x in ints:
-            det = {"arg": x}
+            det = {"arg": x, "variant": variant[0]}
             calls.append({"api": "set_grid_export_limit", "args": [x],
                           "span": {"guard": x < 0, "documented": False, "decode": False, "detail": det}})
             if fam != "DT":
@@ -372,6 +372,16 @@ def check(prop: str, tier: str, seed: int) -> int:
                     raise engine.MachineryError("program did not finish: " + tr["status"])
             n += judge_spans(run, traces, own, batch_spans=1200)
             checks_model.compare_predictions(run, part, traces)
+            del traces
+        if prop == "C14":
+            # single reads decode from an answer too: read_sensor(id) for every listed id (the programs of C16), judged
+            # by the C14 clauses (what the decoder takes out of the answer lies inside it)
+            sprogs = gen_single_programs(tier, rnd)
+            traces = engine.parallel_map("harness.checks_inverter", "run_single_program", sprogs, procs=16, chunk=1)
+            for tr in traces:
+                if tr["status"] != "ok":
+                    raise engine.MachineryError("program did not finish: " + tr["status"])
+            n += judge_spans(run, traces, own, batch_spans=400)
             del traces
         run.cov["distinct_nontrivial"] += n
         run.cov["samples"].append({"program_cfg": progs[len(progs) // 2].get("cfg", {}),
